@@ -54,16 +54,48 @@ def cfg_text(sc, switches, faults=True, max_ops=5, prune_batch=1, mbt=False, inv
         lines += ["INIT Init", "NEXT Next", "VIEW view"]
         if invariants:
             lines += ["INVARIANTS TypeOK Consistent MemAgreesWithDisk NextStoreSucceeds StateReadsCorrect",
-                      "PROPERTIES FailedWriteAppliesNothing"]
+                      "PROPERTIES FailedWriteAppliesNothing RestartIsNoOp"]
     lines.append("CHECK_DEADLOCK FALSE")
     return "\n".join(lines) + "\n", c
 
 
+# specification switch -> key of the confirmed defect it models
+DEFECT_KEYS = {
+    "FixMemAfterCommit": "event-filter:mem-ahead-of-failed-commit:revert",
+    "FixSnapshot": "event-filter:stale-snapshot-reused-after-restart",
+    "FixReorgWindow": "event-filter:stale-window-after-reorg-across-boundary:store-fails-after-restart",
+    "FixPruneAtomicFloor": "prune-crash:floor-reseed-below-deleted-history",
+    "FixCacheOnReorg": "bloom-cache:stale-window-after-reorg-across-boundary",
+}
+
+
 def engine(ctx, binary, test, payload, timeout=3000):
+    """Run an engine test. The engine gets a deadline shorter than the driver's timeout, so that a
+    hang (of the harness or of the real code) still delivers what was recorded. A machinery error
+    is exit 2 only if no divergence on the real code was recorded before it."""
+    payload = dict(payload, deadlineSec=max(60, timeout - 120))
     res = ctx.run_engine(binary, test, payload, timeout=timeout)
-    if res.get("stats", {}).get("machinery_error"):
-        raise vlib.Broken("engine %s: %s\n%s" % (test, res["stats"]["machinery_error"], res.get("_stdout", "")[-2000:]))
+    err = res.get("stats", {}).pop("machinery_error", None)
+    if err:
+        if not res.get("divergences"):
+            raise vlib.Broken("engine %s: %s\n%s" % (test, err, res.get("_stdout", "")[-2000:]))
+        vlib.log("engine %s stopped early (%s) after recording %d divergences" % (test, err, len(res["divergences"])))
     return res
+
+
+def model_switches(ctx, probe_stats):
+    """The model the code is compared with comes from known_findings.json, not from the tree under
+    test: a defect is modelled as present (switch FALSE) only if its key is listed `known` for this
+    property AND its directed replay reproduces it; listed `fixed` or not listed => repaired model
+    (a defect that returns, even partially, then departs from the model = VIOLATION)."""
+    sw = {}
+    for s, key in DEFECT_KEYS.items():
+        listed = any(k["status"] == "known" and vlib.key_matches(k["key"], key) for k in ctx.known)
+        reproduces = probe_stats.get(s) is False or probe_stats.get(s) == 0
+        sw[s] = not (listed and reproduces)
+        if listed and not reproduces:
+            print("NOTE: property=%s known finding %s did not reproduce on this tree" % (ctx.prop, key), flush=True)
+    return sw
 
 
 def run(ctx):
@@ -77,43 +109,45 @@ def run(ctx):
 
     thorough = not ctx.quick()
 
-    # ---- which of the known defects does this tree still have? (the spec models the code as it is)
+    # ---- directed replays of the confirmed defects; the model's switches come from known_findings.json
     probe = engine(ctx, binary, "TestCrashProbe", {}, timeout=900)
-    ctx.absorb(probe, "crash", "TestCrashProbe")   # directed replays of the confirmed defects
-    faithful = {s: bool(probe.get("stats", {}).get(s, False)) for s in SWITCHES}
+    pstats = dict(probe.get("stats", {}))
+    ctx.absorb(probe, "crash", "TestCrashProbe")
+    faithful = model_switches(ctx, pstats)
     repaired = {s: True for s in SWITCHES}
-    ctx.coverage["switches_probed_on_code"] = faithful
-    vlib.log("switches probed on the real code: %s" % faithful)
+    ctx.coverage["model_switches"] = faithful
+    vlib.log("model switches (from known_findings.json; FALSE = listed known and reproduced): %s" % faithful)
 
-    # ---- 1. TLC on the specification
+    # ---- 1. TLC on the specification (repaired design)
     ctx.tlc_check("chain", "MCCrash.tla", "Crash_quick.cfg", timeout=900)
     ctx.tlc_check("chain", "MCCrash.tla", "Crash_quick_b.cfg", timeout=900)
     if thorough:
         ctx.tlc_check("chain", "MCCrash.tla", "Crash_thorough.cfg", timeout=3000)
         ctx.tlc_check("chain", "MCCrash.tla", "Crash_thorough_b.cfg", timeout=3000)
-    if thorough:
-        # vacuity: the situations the properties talk about are reachable (each witness invariant
-        # claims "never" and must be violated)
-        for wname in ("NeverStore", "NeverRevert", "NeverSetL1", "NeverSnapshot", "NeverPrune", "NeverPruneStep",
-                      "NeverRestart", "NeverQuery", "NeverInitPut", "NeverFailedWrite", "NeverCrashedMidPrune",
-                      "NeverCrossedBack"):
-            txt, _ = cfg_text("hi", repaired, max_ops=6, invariants=False)
-            # no VIEW here: the witnesses speak about act/res, which the view hides
-            txt = txt.replace("VIEW view\n", "").replace("CHECK_DEADLOCK FALSE", "INVARIANTS %s\nCHECK_DEADLOCK FALSE" % wname)
-            r = ctx.tlc_check("chain", "MCCrash.tla", "witness.cfg", files={"witness.cfg": txt}, timeout=600,
-                              expect_violation=True, label="witness " + wname)
+
+    def self_checks():
+        """Vacuity and model self-checks; run AFTER the engines so that they cannot turn a violation
+        observed on the code into exit 2."""
+        if thorough:
+            for wname in ("NeverStore", "NeverRevert", "NeverSetL1", "NeverSnapshot", "NeverPrune", "NeverPruneStep",
+                          "NeverRestart", "NeverQuery", "NeverInitPut", "NeverFailedWrite", "NeverCrashedMidPrune",
+                          "NeverCrossedBack"):
+                txt, _ = cfg_text("hi", repaired, max_ops=6, invariants=False)
+                # no VIEW here: the witnesses speak about act/res, which the view hides
+                txt = txt.replace("VIEW view\n", "").replace("CHECK_DEADLOCK FALSE", "INVARIANTS %s\nCHECK_DEADLOCK FALSE" % wname)
+                r = ctx.tlc_check("chain", "MCCrash.tla", "witness.cfg", files={"witness.cfg": txt}, timeout=600,
+                                  expect_violation=True, label="witness " + wname)
+                if r["ok"]:
+                    raise vlib.Broken("vacuity: %s is never violated, i.e. the situation is unreachable in the model" % wname)
+        if not all(faithful.values()):
+            # the model with the listed-known defects switched on must exhibit them
+            txt, _ = cfg_text("hi", faithful, max_ops=5)
+            r = ctx.tlc_check("chain", "MCCrash.tla", "faithful.cfg", files={"faithful.cfg": txt}, timeout=900,
+                              expect_violation=True, label="model with the known defects (expected to violate)")
             if r["ok"]:
-                raise vlib.Broken("vacuity: %s is never violated, i.e. the situation is unreachable in the model" % wname)
-    if not all(faithful.values()):
-        # the faithful model must exhibit the defects the probe saw (otherwise the switches do not
-        # model them): TLC is expected to report a violation here, it is not a verdict
-        txt, _ = cfg_text("hi", faithful, max_ops=5)
-        r = ctx.tlc_check("chain", "MCCrash.tla", "faithful.cfg", files={"faithful.cfg": txt}, timeout=900,
-                          expect_violation=True, label="faithful model (expected to violate)")
-        if r["ok"]:
-            raise vlib.Broken("the faithful model (switches %s) satisfies every invariant although the probe "
-                              "found defects on the code: the switches do not model them" % faithful)
-        ctx.coverage["faithful_model_violates"] = r["violated"]
+                raise vlib.Broken("the model with switches %s satisfies every invariant: the switches do not model "
+                                  "the listed known defects" % faithful)
+            ctx.coverage["faithful_model_violates"] = r["violated"]
 
     # ---- 2./3. binding
     scen_list = ["gen", "mid", "lo", "hi"]
@@ -156,6 +190,15 @@ def run(ctx):
                               "pruneBatch": pb, "plain": False, "switches": faithful}, timeout=3000)
                 ctx.absorb(res, "crash", "TestCrashEnum")
                 vlib.log("engine TestCrashEnum %s pb=%d %s: %d sequences, %.0fs" % (sc, pb, be, len(part), res["_wall_s"]))
+    res = engine(ctx, binary, "TestCrashConcurrent", {"newState": [False, True]}, timeout=1500)
+    ctx.absorb(res, "crash", "TestCrashConcurrent")
+    vlib.log("engine TestCrashConcurrent: %s reads in %s rounds, %.0fs" % (
+        res.get("stats", {}).get("concurrent_reads"), res.get("stats", {}).get("concurrent_rounds"), res["_wall_s"]))
+    try:
+        self_checks()
+    except vlib.Broken:
+        if not ctx.violations:
+            raise
     ctx.coverage["behaviours_conformance"] = total_conf
     ctx.coverage["sequences_fault_enumerated"] = total_enum
     ctx.assumptions += [
